@@ -1,7 +1,7 @@
 """C06 - Running failure strategies are applied once, by the Master, with precedence (structural clauses)."""
 import ast
 from ..model import own_nodes, AnalysisError
-from ..paths import factmap, call_text, returns, must_call
+from ..paths import returned_values, factmap, call_text, returns, must_call
 from ..callgraph import CallGraph
 from ..absval import EnumEval
 from .c01 import listener_entries, IS_MASTER
@@ -124,7 +124,7 @@ def run(P, R):
         facts = {tuple(f) for f in fm.at(adds[0])}
         for higher in ORDER[:i]:
             tested = any(f[0].endswith(' in self.%s' % higher) and not f[1] for f in facts) or \
-                _guarded_by_nested_return(u, higher)
+                _guarded_by_nested_return(u, higher, fm.at(adds[0]))
             R.check(r3, tested, '%s yields to %s' % (ADDERS[setname], higher), 'precedence|%s|yield|%s' % (setname, higher),
                     u.loc(), '%s adds to %s without first returning when the entity is already in the higher-priority '
                     '%s: two actions are taken for one application' % (u.qual, setname, higher))
@@ -289,20 +289,27 @@ def run(P, R):
     R.check(r6, rs == ['(invalidated_identifiers, failed_processes)'], 'both accumulators are returned',
             'accumulate|return', u.loc(), 'invalidate_failed returns %s' % rs)
     ii = P.unit('ProcessStatus.invalidate_identifier')
-    asg = [a for a in own_nodes(ii.node) if isinstance(a, ast.Assign) and ast.unparse(a.targets[0]) == 'failure']
-    ok = sorted(ast.unparse(a.value) for a in asg) == ['False', 'self.running_identifiers == set()']
+    # the value returned, whether through a flag local or by direct returns (paths.returned_values)
+    rv = [(ast.unparse(v) if v is not None else 'None', {tuple(f) for f in fs}) for v, fs in returned_values(ii)]
+    truthy = [(t, fs) for t, fs in rv if t not in ('False', 'None')]
+    ok = len(truthy) == 1 and truthy[0][0] in ('self.running_identifiers == set()', 'not self.running_identifiers') and \
+        ('identifier in self.running_identifiers', True) in truthy[0][1] and \
+        all(t == 'False' for t, fs in rv if (t, fs) != truthy[0])
     R.check(r6, ok, 'a lost process is a running failure only when it runs nowhere any more', 'accumulate|failure',
-            ii.loc(), 'invalidate_identifier computes failure as %s' % sorted(ast.unparse(a.value) for a in asg))
+            ii.loc(), 'invalidate_identifier returns %s' % sorted((t, sorted(fs)) for t, fs in rv))
     R.assume('The end-to-end effect (exactly one copy running again) and the dependence on the crash instant are NOT '
              'decided.')
 
 
-def _guarded_by_nested_return(u, higher):
-    """`if application in self.<higher>: if <cond>: return` - a conditional yield (restart_application vs processes not
-    in the start sequence): accepted as the documented refinement."""
-    for n in own_nodes(u.node):
-        if isinstance(n, ast.If) and ast.unparse(n.test).endswith(' in self.%s' % higher):
-            for x in ast.walk(n):
-                if isinstance(x, ast.Return):
+def _guarded_by_nested_return(u, higher, facts=()):
+    """`if application in self.<higher> and <cond>: return` - a conditional yield (restart_application vs processes not
+    in the start sequence): accepted as the documented refinement. After sa.normalise (merged-if) the fact reaching the
+    add is the true disjunction `not application in self.<higher> or not <cond>`."""
+    for f in facts:
+        n = getattr(f, 'node', None)
+        if f[1] and isinstance(n, ast.BoolOp) and isinstance(n.op, ast.Or):
+            for v in n.values:
+                if isinstance(v, ast.UnaryOp) and isinstance(v.op, ast.Not) and \
+                        ast.unparse(v.operand).endswith(' in self.%s' % higher):
                     return True
     return False
